@@ -801,6 +801,11 @@ impl<'a> Host<'a> {
                 with_res(|s| s.table[*idx as usize] = None);
             }
         }
+        if self.samples_left > 0 && f.params.iter().chain(f.result.iter()).any(|t| crate::run::type_has_handle(&self.abi, t, 0)) {
+            self.samples_left -= 1;
+            self.rep.sample(json!({"world": self.world_tag, "op": op, "func": f.symbol(), "user_code_keeps_received_handles": keep,
+                "args_as_the_user_code_must_see_them": down.seen, "scripted_result": up.first().map(|x| x.0.clone()), "opts": self.tables.opts}));
+        }
         self.drain_traps(Some(f), op);
         let key = format!("res-export|{}|{}|{}|{}", op, f.params.iter().map(|t| self.abi.shape_key(t)).collect::<Vec<_>>().join(","), f.result.as_ref().map(|t| self.abi.shape_key(t)).unwrap_or_default(), keep);
         self.rep.distinct(&key);
@@ -939,6 +944,11 @@ impl<'a> Host<'a> {
                     model.kept_imported.remove(&k);
                 }
             }
+        }
+        if self.samples_left > 0 && f.params.iter().chain(f.result.iter()).any(|t| crate::run::type_has_handle(&self.abi, t, 0)) {
+            self.samples_left -= 1;
+            self.rep.sample(json!({"world": self.world_tag, "op": op, "func": f.symbol(), "user_code_keeps_received_handles": keep,
+                "scripted_args": up.iter().map(|x| x.0.clone()).collect::<Vec<_>>(), "host_result_as_the_user_code_must_see_it": down.seen.first(), "opts": self.tables.opts}));
         }
         self.drain_traps(Some(f), op);
         let key = format!("res-import|{}|{}|{}|{}", op, f.params.iter().map(|t| self.abi.shape_key(t)).collect::<Vec<_>>().join(","), f.result.as_ref().map(|t| self.abi.shape_key(t)).unwrap_or_default(), keep);
